@@ -47,6 +47,7 @@ let seq_mode () =
             let t = ref t in
             for k = 0 to n - 1 do t := tv_assign !t (n_of_int (st + k)) done;
             (!t, "ok" :: acc) end
+          else if tok.[0] = 'w' then (tv_setref t (n_of_int (rest tok)), "ok" :: acc)
           else if tok = "u" then (match tv_update t with
               | Some (t', b) -> (t', (if b then "true" else "false") :: acc)
               | None -> (t, "stale" :: acc))
